@@ -96,6 +96,12 @@ func Resume(
 				// file most-likely contains the index and we cannot know where it starts, therefore
 				// can't resume.
 				return errors.New("corrupt CARv2 header; cannot resume from file")
+			} else if headerInFile.IndexOffset < headerInFile.DataOffset+headerInFile.DataSize {
+				// Finalize always writes an index after the data payload, so a complete header has
+				// its index offset at or beyond the end of the payload. Anything else means the
+				// offsets were only partially written: the data size cannot be trusted, and
+				// truncating the file to it could cut off blocks.
+				return errors.New("corrupt CARv2 header; cannot resume from file")
 			}
 		}
 
